@@ -12,6 +12,9 @@ CHECKS = {
  'C02': dict(cat=MC, technique='TLA+ definition-level four-point rule (leftmost-quadruple rewriting) vs implementation-shaped stack kernels, TLC exhaustive, dump replayed into the real detectors, recorded traces validated by TLC',
    text='TLC proves stack kernel = textbook definition on every signal of the bounded instance and the harness compares the real detectors with the definition-level result of every state; partition of turning points and index addressing are checked on the observed output.',
    note='FKM oracle = HCM rule in the guideline form documented by pyLife; integer-valued samples', ref='5 C02'),
+ 'C03': dict(cat=MC, technique='TLA+ symmetry theorems (negation, affine, refinement index map, NaN index correction) checked by TLC on every signal; pairs of runs of the real detectors related as the spec states; recorded pairs decided by a TLC trace specification',
+   text='The transformations form a finite family per signal; TLC proves the relations on the specification for every signal of the bounded instance and the harness executes the real detectors on every (signal, transformation) pair of that instance, comparing observed outputs by the relation; longer recorded pairs are accepted/rejected by Trace_Symmetry.tla.',
+   note='integer samples / integer affine maps for the TLC-decided part; FKM claimed only for negation and refinement', ref='5 C03'),
 }
 PENDING = 'check not built yet in this round (planned, see DESIGN.md section 5)'
 NA = {
